@@ -3,11 +3,24 @@ import RtcModel.C07Dtls
 namespace RtcModel.C07.Dtls
 open RtcModel.C07
 
+theorem recordDecodeP_safe {B : Nat} {Q b n} (hn : n ≤ B)
+    (h : ∀ r b', (r.1 ≠ [] → b'.rem + 13 ≤ b.rem) → Q r b' n) : safe (· ≤ B) recordDecodeP Q b n := by
+  unfold recordDecodeP
+  cur_auto
+  all_goals (apply h; intro hne; first | omega | exact absurd rfl hne)
+
 theorem recordDecode_safe {B : Nat} {Q b n} (hn : n ≤ B)
     (h : ∀ r b', (r ≠ [] → b'.rem + 13 ≤ b.rem) → Q r b' n) : safe (· ≤ B) recordDecode Q b n := by
   unfold recordDecode
-  cur_auto
-  all_goals (apply h; intro hne; first | omega | exact absurd rfl hne)
+  apply safe_bind
+  apply recordDecodeP_safe hn
+  intro r b' hr
+  apply safe_pure
+  apply h
+  intro hne
+  apply hr
+  intro h0
+  simp [h0] at hne
 
 theorem handshakeDecode_safe {B : Nat} {Q b n} (hn : n ≤ B)
     (h : ∀ r b', (r ≠ [] → b'.rem + 12 ≤ b.rem) → Q r b' n) : safe (· ≤ B) handshakeDecode Q b n := by
@@ -15,43 +28,20 @@ theorem handshakeDecode_safe {B : Nat} {Q b n} (hn : n ≤ B)
   cur_auto
   all_goals (apply h; intro hne; first | omega | exact absurd rfl hne)
 
-attribute [local irreducible] recordDecode handshakeDecode
-
-theorem recordWalk_safe (b : Buf) (n : Nat) : safe (· ≤ n) recordWalk (fun _ _ n' => n' ≤ n) b n := by
-  unfold recordWalk
+/-- same, additionally exposing that the 24-bit / 16-bit header fields are in range -/
+theorem handshakeDecode_safe' {B : Nat} {Q b n} (hn : n ≤ B)
+    (h : ∀ r b', (r ≠ [] → b'.rem + 12 ≤ b.rem) →
+      (∀ t total seq fo fl x, r = [t, total, seq, fo, fl, x] → total < 16777216 ∧ seq < 65536) → Q r b' n) :
+    safe (· ≤ B) handshakeDecode Q b n := by
+  unfold handshakeDecode
   cur_auto
-  apply safe_loop (fun _ _ n' => n' ≤ n) (fun _ b' => b'.rem)
-  · intro s b' n' hinv
-    unfold recordWalkBody
-    cur_auto
-    apply safe_attemptD' (B := n')
-    · intro k hk; cur_auto
-    · apply recordDecode_safe (by omega)
-      intro r b'' hr
-      cur_auto
-      rename_i h1 h2
-      have := hr h2
-      omega
-  · omega
-  · omega
+  all_goals (apply h)
+  all_goals (first
+    | (intro hne; first | omega | exact absurd rfl hne)
+    | (intro t total seq fo fl x heq; simp only [List.cons.injEq, and_true] at heq; omega)
+    | (intro t total seq fo fl x heq; simp at heq))
 
-theorem handshakeWalk_safe (b : Buf) (n : Nat) : safe (· ≤ n) handshakeWalk (fun _ _ n' => n' ≤ n) b n := by
-  unfold handshakeWalk
-  cur_auto
-  apply safe_loop (fun _ _ n' => n' ≤ n) (fun _ b' => b'.rem)
-  · intro s b' n' hinv
-    unfold handshakeWalkBody
-    cur_auto
-    apply safe_attemptD' (B := n')
-    · intro k hk; cur_auto
-    · apply handshakeDecode_safe (by omega)
-      intro r b'' hr
-      cur_auto
-      rename_i h1 h2
-      have := hr h2
-      omega
-  · omega
-  · omega
+attribute [local irreducible] recordDecodeP recordDecode handshakeDecode
 
 theorem clientHelloDecode_safe (b : Buf) :
     safe (· ≤ b.rem) clientHelloDecode (fun _ _ n' => n' ≤ b.rem) b 0 := by
@@ -147,52 +137,195 @@ theorem seqRun_safe (k s : Nat) (b : Buf) (n : Nat) (hs : s ≤ 65535) :
     cur_auto
     exact ih _ (by omega)
 
-/-- invariant of the reassembly bookkeeping: the receive counter stays in u16 and the reassembly buffer below 2^24 -/
+/-- invariant of the bookkeeping: the receive counter stays in u16 and the reassembly buffer below 2^24 bytes -/
 def HsCtx.Ok (c : HsCtx) : Prop := c.recvSeq ≤ 65535 ∧ c.incLen < 16777216
 
-theorem acceptSeq_le (isClient : Bool) (recv : Nat) (postHvr : Bool) (seq : Nat) :
-    (acceptSeq isClient recv postHvr seq).2 ≤ max recv seq := by
+abbrev T : Nat → Prop := fun _ => True
+
+theorem acceptSeq_le (isClient : Bool) (recv : Nat) (postHvr : Bool) (typ seq : Nat) :
+    (acceptSeq isClient recv postHvr typ seq).2.1 ≤ max recv seq := by
   unfold acceptSeq
   repeat' split
   all_goals (dsimp only; omega)
 
-theorem reassemble_safe {E : Nat → Prop} (c : HsCtx) (m : HsMsg) {Q b n}
-    (hc : c.Ok) (htot : m.total < 16777216) (hE : ∀ k, E k)
-    (h : ∀ r n', r.2.Ok → Q r b n') : safe E (reassemble c m) Q b n := by
-  unfold reassemble seqAdvance
+theorem seqAdvanceAttempt_safe {Q : (Bool × Nat) → Buf → Nat → Prop} (x : Nat) {b n}
+    (h : ∀ r n', (r.1 = true → r.2 ≤ 65535) → Q r b n') : safe T (attemptD (seqAdvance x) 0) Q b n := by
+  apply safe_attemptD
+  unfold seqAdvance
+  apply safe_ite <;> intro hx
+  · apply safe_bail; apply h; intro hh; cases hh
+  · apply safe_pure; apply h; intro _; dsimp only; omega
+
+theorem reassemble_safe (c : HsCtx) (m : HsMsg) {Q b n} (hc : c.Ok) (htot : m.total < 16777216)
+    (h : ∀ c' n', c'.Ok → Q c' b n') : safe T (reassemble c m) Q b n := by
+  unfold reassemble
   obtain ⟨h1, h2⟩ := hc
-  cur_auto
-  all_goals (first | exact hE _ | skip)
-  all_goals (apply h; unfold HsCtx.Ok; dsimp only; omega)
+  apply safe_ite <;> intro hfrag
+  · dsimp only
+    apply safe_ite <;> intro hoff
+    · apply safe_pure; apply h; unfold HsCtx.Ok; dsimp only; refine ⟨h1, ?_⟩; split <;> omega
+    apply safe_bind; apply safe_alloc
+    apply safe_ite <;> intro hlt
+    · apply safe_pure; apply h; unfold HsCtx.Ok; dsimp only; exact ⟨h1, by omega⟩
+    apply safe_bind; apply safe_alloc
+    apply safe_bind
+    apply seqAdvanceAttempt_safe
+    intro r n' hr
+    apply safe_ite <;> intro hf
+    · apply safe_pure; apply h; unfold HsCtx.Ok; dsimp only; exact ⟨h1, by omega⟩
+    · apply safe_pure; apply h; unfold HsCtx.Ok; dsimp only
+      exact ⟨hr (by simpa using hf), by omega⟩
+  · apply safe_bind
+    apply seqAdvanceAttempt_safe
+    intro r n' hr
+    apply safe_ite <;> intro hf
+    · apply safe_pure; apply h; unfold HsCtx.Ok; dsimp only; exact ⟨h1, h2⟩
+    · apply safe_bind; apply safe_alloc
+      apply safe_pure; apply h; unfold HsCtx.Ok; dsimp only
+      exact ⟨hr (by simpa using hf), h2⟩
 
 attribute [local irreducible] reassemble
 
-theorem onMessage_safe {E : Nat → Prop} (isClient : Bool) (c : HsCtx) (m : HsMsg) {Q b n}
-    (hc : c.Ok) (hseq : m.seq ≤ 65535) (htot : m.total < 16777216) (hE : ∀ k, E k)
-    (h : ∀ r n', r.2.Ok → Q r b n') : safe E (onMessage isClient c m) Q b n := by
+theorem onMessage_safe (isClient authenticated : Bool) (c : HsCtx) (m : HsMsg) {Q b n}
+    (hc : c.Ok) (hseq : m.seq ≤ 65535) (htot : m.total < 16777216)
+    (h : ∀ c' n', c'.Ok → Q c' b n') : safe T (onMessage isClient authenticated c m) Q b n := by
   unfold onMessage
-  have ha := acceptSeq_le isClient c.recvSeq c.postHvr m.seq
+  have ha := acceptSeq_le isClient c.recvSeq c.postHvr m.typ m.seq
   obtain ⟨h1, h2⟩ := hc
   dsimp only
   apply safe_ite <;> intro hacc
   · apply safe_pure; apply h; exact ⟨h1, h2⟩
-  · apply reassemble_safe _ _ _ htot hE h
+  apply safe_ite <;> intro hk
+  · apply safe_pure; apply h; unfold HsCtx.Ok; dsimp only; exact ⟨by omega, h2⟩
+  · apply reassemble_safe _ _ _ htot h
     unfold HsCtx.Ok; dsimp only
     exact ⟨by omega, h2⟩
 
 attribute [local irreducible] onMessage
 
-theorem onMessages_safe (isClient : Bool) (ms : List HsMsg) (c : HsCtx) (b : Buf) (n : Nat) (hc : c.Ok)
-    (hm : ∀ m ∈ ms, m.seq ≤ 65535 ∧ m.total < 16777216) :
-    safe (fun _ => True) (onMessages isClient c ms) (fun c' _ _ => c'.Ok) b n := by
-  induction ms generalizing c n with
-  | nil => unfold onMessages; exact safe_pure hc
-  | cons m rest ih =>
-    unfold onMessages
+theorem payloadWalk_safe (isClient authenticated : Bool) (c : HsCtx) {Q b n} (hc : c.Ok)
+    (h : ∀ c' b' n', c'.Ok → Q c' b' n') : safe T (payloadWalk isClient authenticated c) Q b n := by
+  unfold payloadWalk
+  apply safe_bind; apply safe_remaining
+  apply safe_loop (fun c' _ _ => c'.Ok) (fun _ b' => b'.rem)
+  · intro c' b' n' hc'
+    unfold payloadBody
+    apply safe_bind; apply safe_remaining
+    apply safe_ite <;> intro h0
+    · apply safe_pure; exact h _ _ _ hc'
     apply safe_bind
-    have hmm := hm m (by simp)
-    apply onMessage_safe _ _ _ hc hmm.1 hmm.2 (fun _ => trivial)
-    intro r n' hr
-    exact ih r.2 n' hr (fun m' hm' => hm m' (by simp [hm']))
+    apply safe_attemptD
+    apply safe_weaken_err (E := (· ≤ n'))
+    · apply handshakeDecode_safe' (Nat.le_refl _)
+      intro r b'' hprog hfields
+      apply safe_ite <;> intro hr1
+      · apply safe_pure; exact h _ _ _ hc'
+      split
+      · rename_i t total seq fo fl x heq
+        have hf := hfields t total seq fo fl x heq
+        have hp := hprog (by intro hnil; rw [hnil] at heq; simp at heq)
+        apply safe_bind
+        apply onMessage_safe _ _ _ _ hc' (show seq ≤ 65535 by omega) hf.1
+        intro c'' n'' hc''
+        apply safe_ite <;> intro hfail
+        · apply safe_pure; exact h _ _ _ hc''
+        · apply safe_pure; exact ⟨hc'', by omega⟩
+      · apply safe_pure; exact h _ _ _ hc'
+    · intro k _
+      apply safe_ite <;> intro hr1
+      · apply safe_pure; exact h _ _ _ hc'
+      · exact absurd hr1 (by simp)
+  · exact hc
+  · omega
+
+attribute [local irreducible] payloadWalk
+
+theorem payloadHistory_safe (isClient : Bool) (ps : List (List UInt8)) (c : HsCtx) (b : Buf) (n : Nat) (hc : c.Ok) :
+    safe T (payloadHistory isClient c ps) (fun cs _ _ => ∀ c' ∈ cs, c'.Ok) b n := by
+  induction ps generalizing c n with
+  | nil => unfold payloadHistory; apply safe_pure; intro c' hc'; simp at hc'
+  | cons p rest ih =>
+    unfold payloadHistory
+    apply safe_bind; apply safe_onBuf
+    apply payloadWalk_safe _ _ _ hc
+    intro c' b' n' hc'
+    dsimp only
+    apply safe_bind
+    apply safe_mono (ih c' n' hc')
+    intro cs _ _ hcs
+    apply safe_pure
+    intro x hx
+    rcases List.mem_cons.mp hx with rfl | hx
+    · exact hc'
+    · exact hcs x hx
+
+theorem datagramWalk_safe (isClient : Bool) (c : HsCtx) {Q b n} (hc : c.Ok)
+    (h : ∀ c' b' n', c'.Ok → Q c' b' n') : safe T (datagramWalk isClient c) Q b n := by
+  unfold datagramWalk
+  apply safe_bind; apply safe_remaining
+  apply safe_loop (fun c' _ _ => c'.Ok) (fun _ b' => b'.rem)
+  · intro c' b' n' hc'
+    unfold datagramBody
+    apply safe_bind; apply safe_remaining
+    apply safe_ite <;> intro h0
+    · apply safe_pure; exact h _ _ _ hc'
+    apply safe_bind
+    apply safe_attemptD
+    apply safe_weaken_err (E := (· ≤ n'))
+    · apply recordDecodeP_safe (Nat.le_refl _)
+      intro r b'' hprog
+      apply safe_ite <;> intro hr1
+      · apply safe_pure; exact h _ _ _ hc'
+      split
+      · rename_i ct x1 x2 epoch x3 x4 heq
+        have hp := hprog (by intro hnil; rw [hnil] at heq; simp at heq)
+        apply safe_ite <;> intro h1
+        · apply safe_pure; exact ⟨hc', by omega⟩
+        apply safe_ite <;> intro h2
+        · apply safe_pure; exact h _ _ _ hc'
+        apply safe_ite <;> intro h3
+        · apply safe_bind; apply safe_onBuf
+          apply payloadWalk_safe _ _ _ hc'
+          intro c'' b3 n3 hc''
+          apply safe_ite <;> intro hf
+          · apply safe_pure; exact h _ _ _ hc''
+          · apply safe_pure; exact ⟨hc'', by omega⟩
+        apply safe_ite <;> intro h4
+        · apply safe_bind; apply safe_onBuf
+          apply safe_bind; apply safe_remaining
+          apply safe_ite <;> intro h5
+          · apply safe_peek (by omega); intro v _
+            apply safe_pure; exact ⟨hc', by omega⟩
+          · apply safe_pure
+            apply safe_pure; exact ⟨hc', by omega⟩
+        · apply safe_pure; exact ⟨hc', by omega⟩
+      · apply safe_pure; exact h _ _ _ hc'
+    · intro k _
+      apply safe_ite <;> intro hr1
+      · apply safe_pure; exact h _ _ _ hc'
+      · exact absurd hr1 (by simp)
+  · exact hc
+  · omega
+
+attribute [local irreducible] datagramWalk
+
+theorem datagramHistory_safe (isClient : Bool) (ds : List (List UInt8)) (c : HsCtx) (b : Buf) (n : Nat) (hc : c.Ok) :
+    safe T (datagramHistory isClient c ds) (fun cs _ _ => ∀ c' ∈ cs, c'.Ok) b n := by
+  induction ds generalizing c n with
+  | nil => unfold datagramHistory; apply safe_pure; intro c' hc'; simp at hc'
+  | cons d rest ih =>
+    unfold datagramHistory
+    apply safe_bind; apply safe_onBuf
+    apply datagramWalk_safe _ _ hc
+    intro c' b' n' hc'
+    dsimp only
+    apply safe_bind
+    apply safe_mono (ih c' n' hc')
+    intro cs _ _ hcs
+    apply safe_pure
+    intro x hx
+    rcases List.mem_cons.mp hx with rfl | hx
+    · exact hc'
+    · exact hcs x hx
 
 end RtcModel.C07.Dtls
